@@ -124,6 +124,12 @@ class DiagLayer:
             # imported references only apply within this specific
             # diagnostic layer
             extended_odxlinks = copy(odxlinks)
+            # copy() is shallow: the per-fragment dictionaries which
+            # receive the imported objects must be copied as well, else
+            # the imported IDs become visible to all other layers
+            extended_odxlinks._db = copy(odxlinks._db)
+            for doc_frag in self.odx_id.doc_fragments:
+                extended_odxlinks._db[doc_frag] = copy(odxlinks._db.get(doc_frag, {}))
             extended_odxlinks.update(imported_links, overwrite=False)
 
             self.diag_layer_raw._resolve_odxlinks(extended_odxlinks)
